@@ -82,6 +82,18 @@ def sccs(body):
     return comp
 
 
+def join_sites(b):
+    """(block, terminator-like dict whose args[0] is the joined handle) for every join in a body: direct calls of
+    JoinHandle::join, and `handle_option.map(JoinHandle::join)`-style calls that hand the method over as a value"""
+    out = []
+    for bb, t, cal, c in b.calls():
+        if cal == JOIN:
+            out.append((bb, t))
+        elif cal and t.get("args") and any(isinstance(a, dict) and (a.get("c") or {}).get("res") == JOIN or (a.get("c") or {}).get("fn") == JOIN for a in t["args"][1:]):
+            out.append((bb, dict(t, args=[t["args"][0]])))
+    return out
+
+
 def run(ctx, rep):
     run_termination_rules(ctx, rep)
     run_output_rules(ctx, rep)
@@ -96,7 +108,12 @@ def run_termination_rules(ctx, rep):
 
     # ---------------- R17.1 drop before join
     n_join = 0
-    for path, bb, t, cal, c in cg.call_sites(lambda c: c == JOIN, within=reach):
+    all_joins = []
+    for path in sorted(reach):
+        fn_ = f.fns.get(path)
+        if fn_ and fn_.get("mir"):
+            all_joins.extend((path, bb, t) for bb, t in join_sites(cg.body(path)))
+    for path, bb, t in all_joins:
         n_join += 1
         b = cg.body(path)
         IN, at_call = maybe_init(b)
@@ -201,7 +218,7 @@ def run_termination_rules(ctx, rep):
     pr = "fastpasta::process"
     if pr in f.fns:
         b = cg.body(pr)
-        joins = [(bb, t) for bb, t, cal, c in b.calls() if cal == JOIN]
+        joins = join_sites(b)
         okb = [i for i, j, s in b.stmts() if s["k"] == "assign" and s["rv"]["k"] == "agg" and s["rv"].get("vname") == "Ok" and s["lhs"]["l"] == 0]
         srcs = {}
         for bb, t in joins:
@@ -222,6 +239,10 @@ def run_termination_rules(ctx, rep):
                 jb = srcs[name]
                 reach_wo = b.reachable_from(0, removed=[jb])
                 guard_ok = False
+                tj = b.blocks[jb]["t"]
+                if (tj.get("k") == "call" or "args" in tj) and callee_of(tj)[0] in ("core::option::Option::<T>::map", "core::option::Option::<T>::and_then") and okb and b.all_paths_pass(0, [jb], to=okb):
+                    # `handle_option.map(JoinHandle::join)` on every path: joined exactly when the handle exists
+                    guard_ok = True
                 for x in b.live_blocks():
                     tt = b.blocks[x]["t"]
                     if tt["k"] == "switch" and jb in b.reachable_from(x) and x != jb:
@@ -237,7 +258,7 @@ def run_termination_rules(ctx, rep):
     ir = "fastpasta::init::run"
     if ir in f.fns:
         b = cg.body(ir)
-        joins = [bb for bb, t, cal, c in b.calls() if cal == JOIN]
+        joins = [bb for bb, t in join_sites(b)]
         exits = [bb for bb, t, cal, c in b.calls() if cal == "fastpasta::util::lib::exit"]
         ic = [bb for bb, t, cal, c in b.calls() if cal == "fastpasta::controller::init_controller"]
         rep.check(len(joins) == 1 and exits and ic and all(b.dominates(joins[0], e) for e in exits) and b.all_paths_pass(ic[0], joins), "R17.3", "R17.3|run|controller_joined",
@@ -253,7 +274,7 @@ def run_termination_rules(ctx, rep):
                   "the analysis thread joins all validator threads on every path", an, "validator_dispatcher.join() is skipped on some path")
     if dj in f.fns:
         clo = dj + "::{closure#0}"
-        ok = clo in f.fns and any(cal == JOIN for bb, t, cal, c in cg.body(clo).calls())
+        ok = clo in f.fns and bool(join_sites(cg.body(clo)))
         b = cg.body(dj)
         dr = [t for bb, t, cal, c in b.calls() if cal and cal.endswith("::drain")]
         full = bool(dr) and "RangeFull" in show_origin(b.origin(dr[0]["args"][1]))
